@@ -12,7 +12,9 @@ REMARKS = ["remark text", "10 remark text", "remark 10 permit ip any any", "rema
            "4294967295 remark x", "remark ~!@#$%^&*()_+{}|:<>?",
            # texts around and beyond 100 characters, with blanks at every position class (a blank at index 99, 100, 101 of the text)
            "remark " + "a" * 99 + " tail", "remark " + "a" * 100 + " tail", "remark " + "a" * 98 + " b tail", "remark " + "word " * 30 + "end", "20 remark " + "xy " * 40 + "z",
-           "remark " + "a" * 100, "remark " + "a" * 150]
+           "remark " + "a" * 100, "remark " + "a" * 150,
+           # white space other than single blanks between the words (tab next to a blank, two tabs, tab alone)
+           "remark web \tservers", "remark a\t\tb", "remark x\t y", "remark p\tq", "30\t remark  t \t u"]
 STANDARD = ["permit host 10.0.0.1", "permit 10.0.0.0 0.0.0.255", "deny any", "10 permit 10.0.0.1", "permit any log", "permit 10.0.0.0 0.0.0.255 log"]
 
 
@@ -215,7 +217,7 @@ def main(chk):
         for p in gen.PROTOS[platform] + ["0", "ip"]:
             for nr in (False, True):
                 cases.append(("Protocol", p, (("platform", platform), ("protocol_nr", nr)), True))
-        for o in gen.OPTIONS_TCP + ["dscp ef log", "established", "ttl eq 5"]:
+        for o in gen.OPTIONS_TCP + ["dscp ef log", "established", "ttl eq 5", "ack\t\tlog", "ack \tlog", "ack\t log", "syn\tack"]:
             cases.append(("Option", o, (("platform", platform),), True))
         for r in REMARKS:
             cases.append(("Remark", r, (("platform", platform),), True))
